@@ -82,6 +82,7 @@ func safeLoad(repo, verif string) (p *Prog, err error) {
 	p.buildGuards()
 	p.registerModuleFields()
 	p.loadParamAliases(verif)
+	p.loadCalleeBaseline(verif)
 	return p, nil
 }
 
